@@ -60,6 +60,7 @@ const (
 	HookIdentity
 	HookUnwrap // a struct with the single exported field "Wrapped" is replaced by that field's value
 	HookConst  // every step's result is replaced by the constant string "K"
+	HookShout  // HookUnwrap, and every string-kind value (json.Number aside) is replaced by its upper-cased copy as a plain string
 )
 
 // Env is the evaluation context.
@@ -114,6 +115,19 @@ const (
 func (e *Env) hook(n *uni.Node) *uni.Node {
 	if e.Hook == HookConst {
 		return uni.Str("K")
+	}
+	if e.Hook == HookShout && n != nil {
+		u := *e
+		u.Hook = HookUnwrap
+		n = u.hook(n)
+		d := n
+		for d != nil && d.T.K == uni.KIface && !d.Nil {
+			d = d.Elem
+		}
+		if d != nil && d.T.K == uni.KString {
+			return uni.Str(strings.ToUpper(d.S))
+		}
+		return n
 	}
 	if e.Hook != HookUnwrap || n == nil {
 		return n
